@@ -177,7 +177,7 @@ theorem c05_wire_inv (hrt : HeaderRoundTrip) (h : Header) (id : UInt8) (v : Byte
 
 /-- main theorem, in the shape the driver evaluates on the real code: for every start state and
     every operation list that meet the hypotheses (`wf`: no ghost elements; `finalWf`: the final
-    header is in the domain of C01's round trip or Marshal refuses it), the model's observation
+    header is in the domain of C01's round trip, or Marshal refuses it, or it shows no element), the model's observation
     satisfies the predicate.  `hrt` is C01's header round trip. -/
 theorem c05_pred_model (hrt : HeaderRoundTrip) (s : Start) (ops : List Op)
     (hwf : wf s = true) (hfw : finalWf s ops = true) :
